@@ -578,6 +578,9 @@ class Normalizer(ast.NodeTransformer):
             l, r = node.left, node.comparators[0]
             if isinstance(l, ast.Constant) and not isinstance(r, ast.Constant):
                 return ast.Compare(left=r, ops=[self._SWAP[type(node.ops[0])]()], comparators=[l])
+            if type(node.ops[0]) in (ast.Gt, ast.GtE) and not isinstance(l, ast.Constant) and not isinstance(r, ast.Constant):
+                # between two non-constants only < and <= are used
+                return ast.Compare(left=r, ops=[self._SWAP[type(node.ops[0])]()], comparators=[l])
             if type(node.ops[0]) in (ast.Eq, ast.NotEq) and not isinstance(r, ast.Constant):
                 if ast.dump(l) > ast.dump(r):
                     return ast.Compare(left=r, ops=node.ops, comparators=[l])
